@@ -217,7 +217,9 @@ func (f *MemFile) Read(b []byte) (n int, err error) {
 	}
 
 	nd.mu.RLock()
-	n = copy(b, nd.data[f.at:])
+	if f.at < int64(len(nd.data)) {
+		n = copy(b, nd.data[f.at:])
+	}
 	nd.mu.RUnlock()
 
 	f.at += int64(n)
@@ -651,6 +653,11 @@ func (f *MemFile) Write(b []byte) (n int, err error) {
 	}
 
 	nd.mu.Lock()
+
+	if gap := f.at - int64(len(nd.data)); gap > 0 {
+		// writing beyond the end of the file leaves a zero filled gap.
+		nd.data = append(nd.data, make([]byte, gap)...)
+	}
 
 	n = copy(nd.data[f.at:], b)
 	if n < len(b) {
